@@ -57,7 +57,28 @@ func c05seq(ver int, items []string) string {
 		return "timeout-ready"
 	}
 	note := ""
+	parked := false // a CloseConnection was written: the loop takes nothing more (the model says so too)
 	for k, it := range items {
+		if parked {
+			// offered but never taken: nothing more may appear on the wire
+			switch it[0] {
+			case 'a':
+				id, _ := strconv.ParseUint(it[1:], 10, 32)
+				s.psend(vframe{ver: ver, typ: 62, id: uint32(id)})
+			case 'r':
+				var typ, n, seed, wants int
+				fmt.Sscanf(it[1:], "%d:%d:%d:%d", &typ, &n, &seed, &wants)
+				ctx, cancel := context.WithTimeout(context.Background(), 30*time.Millisecond)
+				func() {
+					defer func() { recover() }()
+					if m, err := NewByteMessage(MessageType(typ), genPayload(seed, n)); err == nil {
+						s.c.SendNoWait(ctx, m)
+					}
+				}()
+				cancel()
+			}
+			continue
+		}
 		switch it[0] {
 		case 'a':
 			id, _ := strconv.ParseUint(it[1:], 10, 32)
@@ -91,6 +112,9 @@ func c05seq(ver int, items []string) string {
 				}
 			}()
 			f, ok := s.next(4 * time.Second)
+			if ok && typ == 14 {
+				parked = true
+			}
 			if !ok {
 				note = fmt.Sprintf(" timeout@%d", k)
 			} else if wants == 1 {
@@ -287,6 +311,7 @@ func TestVerifC05(t *testing.T) {
 	seq(1, fmt.Sprintf("r2:%d:7:1", limit), "a9", fmt.Sprintf("r3:%d:8:0", limit+1), "r2:0:0:0", "a9")
 	seq(1, "r2:3:1:1", "r14:0:0:1")
 	seq(1, "r2:3:1:0", "a8", "r14:3:5:1") // CloseConnection with a payload must still be a whole frame
+	seq(1, "r2:3:1:1", "r14:0:0:1", "a5", "r3:2:2:0", "a6") // offered after CloseConnection: never taken, nothing more on the wire
 	seq(1, "r14:1:200:0")
 	seq(1, "r14:64:3:1")
 	if vthorough() {
